@@ -39,6 +39,11 @@ func NewQueue[T any]() *Queue[T] {
 
 // Len returns the total number of items in the queue
 func (q *Queue[T]) Len() int {
+	// the two counters change together under the lock (and Purge resets both): reading them
+	// without it can pair a new read count with an old write count and yield a negative length
+	q.mx.RLock()
+	defer q.mx.RUnlock()
+
 	writeCount := q.writeCount.Load()
 	readCount := q.readCount.Load()
 
